@@ -308,9 +308,49 @@ BOND_TIE_KEY = 'canon-differs:bond-order-tie'
 BOND_TIE_REPLAY = ("from chython import smiles; a=smiles('C1=CC=C1'); b=smiles('C=1C=CC=1'); print(str(a), str(b), a == b, hash(a) == hash(b))")
 
 
+# genuine defect of the pinned code (found by fin-C15, C01's territory): CPython has hash(-1) == hash(-2) == -2 and Element.__hash__
+# puts the raw charge into the hashed tuple, so two atoms that differ ONLY in charge -1 / -2 get one Morgan invariant
+CHARGE_TIE_KEY = 'canon-differs:hash-collision-charge--1--2'
+CHARGE_TIE_REPLAY = ("from chython import smiles; a=smiles('[Cl-2].[Cl-]'); b=smiles('[Cl-].[Cl-2]'); "
+                     "print(str(a), str(b), a == b, [hash(x) for _, x in a.atoms()])")
+# two otherwise equal atoms / ligands / metals with charges -1 and -2 (also with an isotope, in one component, three atoms)
+CHARGE_TIE = ['[Cl-2].[Cl-]', '[Cl-].[Cl-2]', '[Fe-2].[Fe-]', '[35Cl-].[35Cl-2]', '[I-].[I-2]', 'C[Fe-]C.C[Fe-2]C', 'Cl[Cu-]Cl.Cl[Cu-2]Cl',
+              'Cl[Pt-2](Cl)[Pt-](Cl)Cl', '[Fe-]C#N.[Fe-2]C#N', '[Zn-2]1CC[Zn-]CC1', '[Cl-2].[Cl-].[Cl-]']
+
+
+def charge_hash_collision(mol):
+    """the mechanism, recognised on the molecule alone: two atoms whose Element.__hash__ values are equal although they differ in
+    charge, the charges being -1 and -2, everything else that is hashed being equal"""
+    seen = {}
+    for n, a in mol.atoms():
+        sig = (a.isotope or 0, a.atomic_number, bool(a.is_radical), a.implicit_hydrogens or 0, bool(a.in_ring))
+        seen.setdefault((hash(a), sig), set()).add(a.charge)
+    return any({-1, -2} <= v for v in seen.values())
+
+
+class _CkRoute:
+    """the check context as the Searcher sees it: a string / partition difference on a molecule that carries the -1 / -2 charge
+    collision is reported under the one stable key of that mechanism (known finding); everything else passes through"""
+    ROUTED = ('canon-differs:', 'nostereo-differs:', 'atoms-order-partition:', 'atoms-order-renumber:')
+
+    def __init__(self, ck):
+        self._ck = ck
+        self.charge_tie = False
+
+    def __getattr__(self, name):
+        return getattr(self._ck, name)
+
+    def counterexample(self, key, what, input, observed, expected, oracle, replay_py=None):
+        if self.charge_tie and key.startswith(self.ROUTED):
+            self._ck.count('search:charge--1--2-collision-finding')
+            return self._ck.counterexample(CHARGE_TIE_KEY, what + ' [two atoms differ only in charge -1 / -2 and hash(-1) == hash(-2)]',
+                                           input, observed, expected, oracle, replay_py=replay_py or CHARGE_TIE_REPLAY)
+        return self._ck.counterexample(key, what, input, observed, expected, oracle, replay_py=replay_py)
+
+
 class Searcher:
     def __init__(self, ck):
-        self.ck = ck
+        self.ck = _CkRoute(ck)
         self.gap_hits = 0
 
     def compare(self, kind, smi, base, other, detail, replay_py=None):
@@ -439,6 +479,7 @@ class Searcher:
             return
         if m is None or not hasattr(m, '_atoms'):
             return
+        ck.charge_tie = charge_hash_collision(m)
         ns = n_stereo(m)
         ck.case(('search', smi), nontrivial=len(m) > 1)
         ck.count(f'search:mol:stereo_elements={min(ns, 4)}')
@@ -659,6 +700,21 @@ def search(ck, seeds=None):
         S.one(smi, rng, n_renum=4, n_spell=3, n_rdkit=4)
     for smi in COORD:
         S.one(smi, rng, n_renum=6, n_spell=6, n_rdkit=2)
+    # charges -1 / -2 on otherwise equal atoms: reached deterministically (the reversed numbering of the molecule as read)
+    from chython import smiles as _sm
+    for smi in CHARGE_TIE:
+        m = _sm(smi)
+        S.ck.charge_tie = charge_hash_collision(m)
+        if not S.ck.charge_tie:
+            ck.unchecked('charge -1 / -2 family', f'{smi}: the two atoms no longer share hash(atom); re-classify the known finding')
+        nums = list(m._atoms)
+        f = dict(zip(nums, reversed(nums)))
+        m2 = m.copy()
+        m2.remap(f)
+        ck.case(('search-charge-tie', smi), nontrivial=True)
+        S.compare('renumber-reversed', smi, m, m2, {'mapping': f},
+                  f"from chython import smiles; m=smiles({smi!r}); a=str(m); m.remap({f!r}); print(a); print(str(m))")
+        S.one(smi, rng, n_renum=3, n_spell=2, n_rdkit=1)
     for smi in ALLENES:
         S.one(smi, rng, n_renum=4, n_spell=12, n_rdkit=1)
     search_allenes(ck)
@@ -713,7 +769,7 @@ def search(ck, seeds=None):
     # every numbering of small molecules (all n! permutations of the atom numbers)
     from chython import MoleculeContainer
     lim = 5 if quick else 6
-    smalls = [x for x in SPECIAL + GAP_EXAMPLES if x not in ('[H][H]',)]
+    smalls = CHARGE_TIE[:1] + CHARGE_TIE[-1:] + [x for x in SPECIAL + GAP_EXAMPLES if x not in ('[H][H]',)]
     n_ex = 0
     for smi in smalls:
         try:
@@ -734,7 +790,10 @@ def search(ck, seeds=None):
         ck.case(('search-exhaustive', smi), nontrivial=True)
         if strings != {base}:
             gaps = gap_classes(m)
-            if 'bond-tie' in gaps:
+            if charge_hash_collision(m):
+                ck.counterexample(CHARGE_TIE_KEY, 'canonical SMILES depends on the numbering (charge -1 / -2 hash collision)', {'smiles': smi},
+                                  sorted(strings), 'one string', 'all n! numberings', replay_py=CHARGE_TIE_REPLAY)
+            elif 'bond-tie' in gaps:
                 ck.counterexample(BOND_TIE_KEY, 'canonical SMILES depends on the numbering (bond-order tie)', {'smiles': smi}, sorted(strings),
                                   'one string', 'all n! numberings', replay_py=BOND_TIE_REPLAY)
             elif gaps:
@@ -1207,7 +1266,7 @@ def correspondence(ck):
     ucases, umeta = [], []
     suspects = []
     n_writer = 0
-    pool = SPECIAL + GAP_EXAMPLES + LONG + ALLENES[:4] + COORD + corpus.sample(corpus.lipo(), 100 if quick else 500, ck.seed, 'c01-corr')
+    pool = SPECIAL + GAP_EXAMPLES + LONG + ALLENES[:4] + COORD + CHARGE_TIE + corpus.sample(corpus.lipo(), 100 if quick else 500, ck.seed, 'c01-corr')
     mols = []
     for smi in pool:
         try:
